@@ -190,7 +190,8 @@ class World:
             def rename_remote(self, old, new):
                 snaps.setdefault("Removed", me.remote_proj(stamps))
                 ORIG.rename_remote(self, old, new)
-                stamps.append(self._pending_renames[-1][0])
+                if self._pending_renames and self._pending_renames[-1][0] not in stamps:
+                    stamps.append(self._pending_renames[-1][0])
 
             def finish_renames(self):
                 snaps.setdefault("Removed", me.remote_proj(stamps))
@@ -416,17 +417,18 @@ def replay_one(sub, w, path, states):
 
 # ----------------------------------------------------------------------------- path selection
 def upload_classes(path, states_txt, cache):
-    """Classes of the uploads a path contains: (mode, unsafe reasons, outcome, err) as the model predicts them."""
+    """Classes of the uploads a path contains: (mode, unsafe reasons, outcome, err, delta features) as the model has them."""
     out = []
     for act, nid in path:
         if nid not in cache:
             txt = states_txt[nid]
-            g = lambda var: re.search(r'/\\ %s = ([^\n]*)' % var, txt)
+            g = lambda var: re.search(r'/\\ %s = (.*?)(?=\n/\\ |\Z)' % var, txt, re.S)
             pc, last = g("pc").group(1), g("last").group(1)
-            cache[nid] = (pc, last, g("mode").group(1), g("err").group(1), re.sub(r"\s+", " ", g("unsafe").group(1)))
-        pc, last, mode, err, unsafe = cache[nid]
+            cache[nid] = (pc, last, g("mode").group(1), g("err").group(1), re.sub(r"\s+", " ", g("unsafe").group(1)),
+                          re.sub(r"\s+", " ", g("feat").group(1)))
+        pc, last, mode, err, unsafe, feat = cache[nid]
         if pc == '"idle"' and act != "Init" and (act.startswith("SetMarker") or act.startswith("Phase") or act.startswith("UploadStart")):
-            out.append((mode, unsafe, last, err))
+            out.append((mode, unsafe, last, err, feat))
     return tuple(out)
 
 
@@ -465,7 +467,7 @@ def run(ctx):
         cl = upload_classes(p, nodes, cache)
         if cl:
             groups.setdefault(cl[-1:], []).append(p)
-    want = (200 if ctx.quick else len(paths)) if ctx.tier != "tiny" else 40
+    want = (300 if ctx.quick else len(paths)) if ctx.tier != "tiny" else 40
     picked = []
     keys = sorted(groups)
     for k in keys:
@@ -498,7 +500,7 @@ def run(ctx):
                 nsim += 1
     ctx.rule("behaviours = paths of a transition cover of TLC's state graph of Upload.tla (initial commit + <= 2 one-edit commits / "
              "uncommits, uploads incremental / full / --overwrite anywhere, possibly skipping commits): %d cover paths in %d "
-             "classes by the model's (mode, unsafe reasons, outcome, error) of their last upload; replayed on a local "
+             "classes by the model's (mode, unsafe reasons, outcome, error, kinds of change in the delta) of their last upload; replayed on a local "
              "directory: %d (classes round-robin%s), every 2nd symlink-free, model-safe one also on a MemoryTransport%s; non-trivial = upload "
              "whose delta the model calls safe; distinct = (transport, uploaded tree, tip tree, mode)"
              % (len(paths), len(keys), len(picked), "" if ctx.quick else " = all",
